@@ -143,6 +143,11 @@ def execute(darsia, ctx, key):
         return darsia.split_bregman_tvd(_data("a"), mu=float(op[1]), ell=1.0, max_num_iter=3, eps=None, x0=ctx["x0"])
     if name == "SBTVD":        # SBTVD|img|mu|ell
         return darsia.split_bregman_tvd(_data(op[1]), mu=float(op[2]), ell=float(op[3]), max_num_iter=4, eps=None)
+    if name == "TVDO":         # TVDO|img|isotropic|ell : ONE TVD object per configuration (class route, options kept by the object), re-used
+        k_ = ("TVDO", op[2], op[3])
+        if k_ not in ctx:
+            ctx[k_] = darsia.TVD(method="heterogeneous bregman", weight=0.4, max_num_iter=4, eps=None, isotropic=bool(int(op[2])), regularization=float(op[3]))
+        return ctx[k_](_data(op[1]))
     if name == "TVD":          # TVD|img|weight
         return darsia.tvd(_data(op[1]), method="heterogeneous bregman", weight=float(op[2]), max_num_iter=4, eps=None)
     if name == "W1":           # W1|method|backend|pair   on a persistent solver object per (method, backend)
@@ -185,6 +190,7 @@ ALPHABET = {
     "tvd-array-weights": ["SBTVDA|bool|3", "SBTVDA|float64|4", "SBTVDA|float32|5", "SBTVD|a|0.5|1.0"],
     "jacobi-single-parameter": ["JP|2|1.0|0.5|all", "JP|3|1.0|0.5|dim", "JP|2|1.0|0.5|dim", "JP|2|2.0|0.5|mass", "JP|2|1.0|0.25|diff", "JP|3|2.0|0.25|all"],
     "mg-single-parameter": ["MGP|2|1.0|0.5|all", "MGP|2|2.0|0.5|mass", "MGP|2|1.0|0.25|diff", "MGP|2|1.0|0.5|dim"],
+    "tvd-object": ["TVDO|a|1|1.0", "TVDO|c|1|1.0", "TVDO|a|0|0.5", "TVDO|c|0|0.5"],
     "mg-object": ["MG|1.0|1.0", "MG|1.0|0.1"],
     "mg-heterogeneous": ["MGH|2.0", "MGH|3.0"],
     "mg-direct-shapes": ["MGD|m", "MGD|n", "MGD|o"],
